@@ -1,10 +1,11 @@
+//! Operation dispatch: every property module gets a chance to claim the op name.
 pub mod c01;
 
 use crate::tree::Tree;
 
 pub fn dispatch(op: &str, input: &Tree) -> Result<Tree, String> {
-    match op {
-        "evaluate" => c01::evaluate(input),
-        _ => Err(format!("unknown op {op}")),
+    if let Some(r) = c01::dispatch(op, input) {
+        return r;
     }
+    Err(format!("unknown op {op}"))
 }
